@@ -125,7 +125,13 @@ def export_checks(tracks, forest, sel, wd, fmt, uniq, variant="plain"):
             import zarr
 
             d = wd / f"g{uniq}.zarr"
-            export_to_geff(tracks, d, node_ids=set(sel))
+            if variant == "overwrite":
+                # the directory already holds an export of another selection
+                other = set(list(tracks.graph.nodes)[: max(1, len(tracks.graph) // 2)])
+                export_to_geff(tracks, d, node_ids=other if other != set(sel) else None)
+                export_to_geff(tracks, d, node_ids=set(sel), overwrite=True)
+            else:
+                export_to_geff(tracks, d, node_ids=set(sel))
             g, _ = geff.read(d / "tracks")
             if set(int(n) for n in g.nodes) != closure:
                 probs.append(("geff-nodes", f"selection {sorted(sel)}: exported nodes "
@@ -147,8 +153,8 @@ def _account(acc, cfg, tracks, sel, closure, comp_of, fmt, variant, probs, ops):
     acc["evaluations"] += 1
     acc["counters"][f"exports-{fmt}"] = acc["counters"].get(f"exports-{fmt}", 0) + 1
     if variant != "plain":
-        acc["counters"][f"exports-csv-{variant}"] = \
-            acc["counters"].get(f"exports-csv-{variant}", 0) + 1
+        acc["counters"][f"exports-{fmt}-{variant}"] = \
+            acc["counters"].get(f"exports-{fmt}-{variant}", 0) + 1
     if cfg.seg:
         acc["counters"]["exports-with-seg"] = acc["counters"].get("exports-with-seg", 0) + 1
     if ops:
@@ -275,7 +281,8 @@ def run_shard(spec):
                     jobs.append((rnd, j))
                     sel = rng.choice(subsets)
                     fmt = rng.choice(["csv", "geff"])
-                    variant = "colors" if fmt == "csv" and rng.random() < 0.35 else "plain"
+                    variant = "colors" if fmt == "csv" and rng.random() < 0.35 else \
+                        "overwrite" if fmt == "geff" and rng.random() < 0.3 else "plain"
                     try:
                         probs, closure = export_checks(tracks, forest, sel, wd, fmt,
                                                        f"{i}-{rnd}-{j}", variant)
@@ -300,7 +307,8 @@ def floors(tier):
     return {"forests": 60, "forests-exhaustive": 30, "subsets-filter": 3000, "exports-csv": 150,
             "exports-geff": 150, "exports-with-seg": 100, "postcondition-evaluations": 3000,
             "forests-where-node-0-is-a-parent": 3, "geff-seg-exports-beyond-first-chunk": 10,
-            "exports-after-edits": 150, "exports-csv-colors": 40}
+            "exports-after-edits": 150, "exports-csv-colors": 40,
+            "exports-geff-overwrite": 40}
 
 
 def replay(doc):
